@@ -17,7 +17,7 @@ CLAUSES = {
     "no-output": "a refused set-up writes no output record",
 }
 BOUNDS = {
-    "quick": "base scenarios: forward/reversed x 1 or 2 forcing files (3 frames) x discrete/continuous release, Nsteps 3; fault parameters symbolic: frame offsets in [-4, 8] steps, release steps in [-6, 10], subgrid integers in [-9, 9]",
+    "quick": "base scenarios: forward/reversed x 1 or 2 forcing files (3 frames) x discrete/continuous release, Nsteps 3; fault parameters symbolic: coverage faults in whole seconds (frames off the step grid, duration with a symbolic sub-step remainder), frame order offsets in [-4, 8] steps, release steps in [-6, 10], subgrid integers in [-9, 9]",
     "thorough": "same with 4 frames and Nsteps 4",
 }
 ASSUMES = ["any exception (SystemExit or other) before the first record counts as refusal; the exception class is listed"]
@@ -39,8 +39,11 @@ def scenarios(tier):
     return out
 
 
-def _world(W, p, frames_at, rel_steps, tmp, subgrid=None, relcols=("release_time", "X", "Y", "Z"), per_file=None):
-    """files + configuration for one set-up; frames_at / rel_steps in simulation steps"""
+def _world(W, p, frames_at, rel_steps, tmp, subgrid=None, relcols=("release_time", "X", "Y", "Z"), per_file=None, frame_secs=None, stop_extra=0):
+    """files + configuration for one set-up; frames_at / rel_steps in simulation steps (frame_secs: the same in seconds, for
+    frames off the step grid; stop_extra: seconds by which the duration exceeds a whole number of steps)"""
+    if frame_secs is None:
+        frame_secs = [m * DT for m in frames_at]
     rev = p["rev"]
     sgn = -1 if rev else 1
     ones = [[1] * L for _ in range(M)]
@@ -49,14 +52,14 @@ def _world(W, p, frames_at, rel_steps, tmp, subgrid=None, relcols=("release_time
     zu = [[[0] * (L - 1) for _ in range(M)] for _ in range(N)]
     zv = [[[0] * L for _ in range(M - 1)] for _ in range(N)]
     # files hold the frames in the order given (physical order = simulation order, reversed when time is reversed)
-    order = list(range(len(frames_at)))
+    order = list(range(len(frame_secs)))
     if rev:
         order = order[::-1]
     per_file = per_file or ([len(order)] if p["files"] == 1 else [len(order) - 1, 1])
     k = 0
     for fi, nfr in enumerate(per_file):
         idx = order[k:k + nfr]
-        times = [T0 + sgn * frames_at[i] * DT - romsfile.REFSEC for i in idx]
+        times = [T0 + sgn * frame_secs[i] - romsfile.REFSEC for i in idx]
         fs = romsfile.forcing_vars(times, [zu for _ in idx], [zv for _ in idx])
         dims = dict(fs[0], xi_rho=L, eta_rho=M, xi_u=L - 1, eta_u=M, xi_v=L, eta_v=M - 1, s_rho=N)
         W.nc_file(tmp / f"f_{fi:03d}.nc", dims, fs[1])
@@ -67,7 +70,7 @@ def _world(W, p, frames_at, rel_steps, tmp, subgrid=None, relcols=("release_time
         rows.append(row)
     W.table(tmp / "r.rls", list(relcols), rows)
     log = []
-    cfg = base_config(W, start=T0, stop=T0 + sgn * 3 * DT, dt=DT, rev=rev, release_file=tmp / "r.rls",
+    cfg = base_config(W, start=T0, stop=T0 + sgn * (3 * DT + stop_extra), dt=DT, rev=rev, release_file=tmp / "r.rls",
                       output=dict(module=str(PLUG / "pout.py"), output_period=DT, log=log))
     cfg["grid"] = dict(module="ladim.ROMS", filename=str(tmp / "grid.nc"))
     if subgrid is not None:
@@ -102,12 +105,16 @@ def run(W, p):
     W.prove(not refused and nrec >= 1, "control-accepted", dict(exception=exc, records=nrec, fault=fault))
     tmp2 = W.fresh_scratch()
     if fault == "coverage-start":
-        m0 = W.int("first_frame", 1, 2)  # first frame after the start
-        cfg, log = _world(W, p, [m0, 3, 5], good_rel, tmp2)
+        # first frame any number of seconds (1 .. 2 steps) after the start; the duration need not be a whole number of steps
+        f0 = W.int("first_frame_sec", 1, 2 * DT)
+        extra = W.int("stop_extra_sec", 0, DT - 1)
+        cfg, log = _world(W, p, None, good_rel, tmp2, frame_secs=[f0, 3 * DT, 5 * DT], stop_extra=extra)
         clause = "forcing-coverage"
     elif fault == "coverage-stop":
-        mlast = W.int("last_frame", 0, 2)  # last frame before the stop (step 3)
-        cfg, log = _world(W, p, [-3, -2, mlast], good_rel, tmp2)
+        # last frame any number of seconds before the last simulated time (step 3)
+        flast = W.int("last_frame_sec", 0, 3 * DT - 1)
+        extra = W.int("stop_extra_sec", 0, DT - 1)
+        cfg, log = _world(W, p, None, good_rel, tmp2, frame_secs=[-3 * DT, -2 * DT, flast], stop_extra=extra)
         clause = "forcing-coverage"
     elif fault == "order":
         # three frames, a symbolic adjacent pair is out of order or equal
